@@ -192,6 +192,38 @@ def run(ck):
                                  {"crystal": nm, "cutoff": cut, "kT": kT, "thermo": {k: np.asarray(v).tolist() for k, v in t0.items()},
                                   "transformed": {k: np.asarray(v).tolist() for k, v in tt.items()},
                                   "base": [b.tolist() for b in Lb], "got": [g.tolist() for g in got]}, key="c04-vm-" + vn)
+        # the tag-dictionary route (tags2preene -> preene2betafree -> Lij) with an INCOMPLETE dictionary: about half of the omega1 /
+        # omega2 transition states are left to the documented LIMB back-fill; a change of reference applied to the supplied tags
+        # only (solute: solute tags and supplied omega1/omega2 tags; vacancy: vacancy, omega0 and supplied omega1/omega2 tags)
+        # must leave the results unchanged - the back-filled transition states have to follow the user's values
+        ud = {}
+        for typ, (plo, phi, elo, ehi) in (("vacancy", (.5, 2, 0, .4)), ("solute", (.5, 2, 0, .4)), ("solute-vacancy", (.5, 2, -.4, .4)),
+                                          ("omega0", (.5, 2, .6, 1.2)), ("omega1", (.5, 2, .6, 1.4)), ("omega2", (.5, 2, .4, 1.4))):
+            for tags in d.tags[typ]:
+                if typ in ("omega1", "omega2") and rng.random() < 0.5: continue
+                ud[(typ, rng.choice(tags))] = (rng.uniform(plo, phi), rng.uniform(elo, ehi))
+        def tagL(shift_types):
+            u2 = {tag: ((pre_ * lam, ene_ + delta) if typ in shift_types else (pre_, ene_)) for (typ, tag), (pre_, ene_) in ud.items()}
+            return [np.array(x) for x in d.Lij(*d.preene2betafree(kT, **d.tags2preene(u2)))]
+        try:
+            Lt = tagL(())
+        except Exception as e:
+            ck.violation("tags2preene/Lij raised %r on an incomplete tag dictionary" % e, {"crystal": nm}, key="c04-raise"); Lt = None
+        if Lt is not None:
+            for vn, types in (("tags-solute-reference", ("solute", "omega1", "omega2")), ("tags-vacancy-reference", ("vacancy", "omega0", "omega1", "omega2"))):
+                try:
+                    got = tagL(types)
+                except Exception as e:
+                    ck.violation("tags2preene/Lij raised %r under %s" % (e, vn), {"crystal": nm}, key="c04-raise"); continue
+                nvm += 1
+                scale = np.abs(Lt[0]).max()
+                err = max(np.abs(g - b).max() for g, b in zip(got, Lt)) / scale
+                ck.case(key=("vm", vn, nm, sorted((t[1], v) for t, v in ud.items()), delta, lam), nontrivial=True, kind="vm:" + vn)
+                if err > 1e-9:
+                    ck.violation("coefficients built from an incomplete tag dictionary (LIMB back-fill) depend on the %s (energy + %.3g, prefactor x %.3g): %.3g relative"
+                                 % (vn[5:], delta, lam, err),
+                                 {"crystal": nm, "cutoff": cut, "kT": kT, "tags": {t[1]: list(v) for t, v in ud.items()}, "shifted_types": list(types),
+                                  "base": [b.tolist() for b in Lt], "got": [g.tolist() for g in got]}, key="c04-vm-" + vn)
         # the same invariances on the scaled free energies handed to Lij DIRECTLY (no renormalisation by preene2betafree):
         # a common shift of a species' site and transition-state values must not matter whatever the zero of the arrays is
         bFV, bFS, bFSV, bFT0, bFT1, bFT2 = [np.array(x, dtype=float) for x in d.preene2betafree(kT, **th)]
